@@ -1,11 +1,12 @@
 CONSTANTS
-  Model = "univ"
-  MaxSteps = 3
-  Hist = TRUE
-  AllowDie = FALSE
+  Model = "geo"
+  MaxSteps = 4
+  Hist = FALSE
+  AllowDie = TRUE
   TransOnlyAsserted = FALSE
   TransOutOnly = FALSE
   NoInverseOfInferred = FALSE
   DirectSuperOnly = FALSE
 SPECIFICATION Spec
-CONSTRAINT Emit
+INVARIANT ClosureReached
+PROPERTY Monotone
